@@ -9,8 +9,10 @@ identical and no process dies.  Scenarios whose values contain a slice/map cycle
 import json
 import os
 import re
+import signal
 import subprocess
 import threading
+import time
 
 from vlib import common as C
 
@@ -361,14 +363,75 @@ def crash_class(text):
     return 'exit'
 
 
-def run_cfg(binary, cfg, ops_path, n, idxs, tag, maxstack=None, timeout=900, nohome=False):
-    """Run the probe for one configuration over lines `idxs` of the ops file, restarting after a crash.
-    Returns {line index: observation}; a line that killed the process gets 'CRASH:<class>'."""
+class Budget:
+    """Shared by all lanes of one run: confirmed hangs and the wall-clock deadline.  After MAX_HANGS reproduced hangs, or past the
+    deadline, the remaining scenarios are skipped — the verdict is then the violation(s) already found."""
+    MAX_HANGS = 3
+
+    def __init__(self, seconds):
+        self.deadline = time.time() + seconds
+        self.hangs = 0
+        self.lock = threading.Lock()
+
+    def exhausted(self):
+        return self.hangs >= self.MAX_HANGS or time.time() > self.deadline
+
+    def hang(self):
+        with self.lock:
+            self.hangs += 1
+
+
+BUDGET = Budget(10 ** 9)
+
+
+def run_once(binary, env, outp, stall, total):
+    """Run the probe; kill its whole process group when it has produced no new observation for `stall` seconds
+    (or after `total` seconds).  Returns (rc, text, stalled)."""
+    with open(outp + '.stderr', 'wb') as ferr, open(outp + '.stdout', 'wb') as fout:
+        p = subprocess.Popen([binary, '-test.run', '^TestVerifC19$', '-test.count=1', '-test.timeout', f'{int(total)}s'],
+                             env=env, cwd=C.BUILD, stdout=fout, stderr=ferr, start_new_session=True)
+        t0 = last = time.time()
+        size = -1
+        stalled = False
+        while p.poll() is None:
+            time.sleep(0.05)
+            try:
+                sz = os.path.getsize(outp)
+            except OSError:
+                sz = 0
+            now = time.time()
+            if sz != size:
+                size, last = sz, now
+            if now - last > stall or now - t0 > total:
+                stalled = True
+                try:
+                    os.killpg(p.pid, signal.SIGKILL)      # the child and anything it started: no stragglers
+                except OSError:
+                    pass
+                p.wait()
+                break
+        rc = p.returncode
+    err = open(outp + '.stderr', 'rb').read()
+    text = (open(outp + '.stdout', 'rb').read()[-4000:] + err[:6000] + err[-6000:]).decode(errors='replace')
+    return rc, text, stalled
+
+
+def run_cfg(binary, cfg, ops_path, n, idxs, tag, maxstack=None, stall=30, total=900, nohome=False):
+    """Run the probe for one configuration over lines `idxs` of the ops file, restarting after a crash or a hang.
+    Returns {line index: observation}; a line that killed the process gets 'CRASH:<class>', a line on which the process
+    made no progress for `stall` seconds TWICE gets 'CRASH:hang'; lines not run because the budget is used up get 'SKIPPED'."""
     res = {}
     start = 0
-    retried_timeout = False
+    retried = None
     todo = sorted(idxs)
-    for _ in range(len(todo) + 2):
+    for _ in range(2 * len(todo) + 2):
+        rest = [i for i in todo if i >= start and i not in res]
+        if not rest:
+            return res
+        if BUDGET.exhausted():
+            for i in rest:
+                res[i] = 'SKIPPED'
+            return res
         outp = os.path.join(C.BUILD, f'{tag}.{cfg}.impl')
         if os.path.exists(outp):
             os.remove(outp)
@@ -383,13 +446,8 @@ def run_cfg(binary, cfg, ops_path, n, idxs, tag, maxstack=None, timeout=900, noh
             env['VERIF_C19_NOHOME'] = '1'
         if maxstack:
             env['VERIF_C19_MAXSTACK'] = str(maxstack)
-            env['VERIF_C19_ISOLATED'] = '1' 
-        try:
-            p = subprocess.run([binary, '-test.run', '^TestVerifC19$', '-test.count=1', '-test.timeout', f'{timeout}s'],
-                               env=env, cwd=C.BUILD, capture_output=True, timeout=timeout + 30)
-            rc, text = p.returncode, (p.stdout[-4000:] + p.stderr[:6000] + p.stderr[-6000:]).decode(errors='replace')
-        except subprocess.TimeoutExpired:
-            rc, text = -1, 'TIMEOUT'
+            env['VERIF_C19_ISOLATED'] = '1'
+        rc, text, stalled = run_once(binary, env, outp, stall, total)
         got = C.read_indexed(outp, n)
         for i in todo:
             if i >= start and got[i] is not None:
@@ -400,15 +458,16 @@ def run_cfg(binary, cfg, ops_path, n, idxs, tag, maxstack=None, timeout=900, noh
         if not missing:
             raise C.Infra(f'probe ({cfg}) failed rc={rc} after answering every line:\n{text[-1500:]}')
         bad = missing[0]
-        cls = crash_class(text)
-        if cls == 'timeout' and not retried_timeout:
-            retried_timeout = True        # a loaded machine: run again from the same line ONCE before believing it
-            start = bad
-            continue
-        res[bad] = 'CRASH:' + cls
+        if stalled:
+            if retried != bad:
+                retried = bad             # a loaded machine: run again from the same line ONCE before believing it
+                start = bad
+                continue
+            res[bad] = 'CRASH:hang'       # reproduced: that operation never returns in this configuration
+            BUDGET.hang()
+        else:
+            res[bad] = 'CRASH:' + crash_class(text)
         start = bad + 1
-        if not [i for i in todo if i >= start]:
-            return res
     return res
 
 
@@ -464,7 +523,7 @@ def execute(bodies, risky, sv, tag='c19'):
             for idx, cfg in chunk:
                 one = os.path.join(C.BUILD, f'{tag}.risky{k}.ops')
                 open(one, 'w').write('\n' * idx + ops[idx] + '\n')
-                r = run_cfg(binary, cfg, one, len(ops), [idx], f'{tag}.risky{k}', maxstack=64 << 20, timeout=90)   # typical 1-3 s; a hang is re-run once (run_cfg)
+                r = run_cfg(binary, cfg, one, len(ops), [idx], f'{tag}.risky{k}', maxstack=64 << 20, stall=40, total=120)   # typical 1-3 s; a stall is re-run once (run_cfg)
                 impl[idx] = r.get(idx)
         except Exception as e:  # noqa: BLE001
             errs.append(e)
@@ -486,7 +545,7 @@ def oracle(body, g, impl):
     T = {cfg: T_of(impl[g[cfg]]) for cfg in CFGS}
     if any(v is None for v in T.values()):
         return ('no observation for configurations ' + ','.join(c for c in CFGS if T[c] is None), None)
-    if any(v == 'bad-op' for v in T.values()):
+    if any(v == 'bad-op' for v in T.values()) or any(v == 'SKIPPED' for v in T.values()):
         return None
     crashed = [c for c in CFGS if T[c].startswith('CRASH')]
     alive = {T[c] for c in CFGS if c not in crashed}
@@ -519,6 +578,8 @@ P_RE = re.compile(r' P=\S+')
 def norm_for_model(impl_obs, model_obs):
     """A process that died is compared with the model's prediction of death.  The panic-value kinds (P=) are an
     observation of the implementation only (the model's panics are classes)."""
+    if impl_obs == 'SKIPPED':
+        return True        # not run: the replay budget was used up by reproduced hangs / the deadline
     if impl_obs is not None:
         impl_obs = P_RE.sub('', impl_obs, count=1)
     if model_obs == 'bad-op' and impl_obs is not None and impl_obs != 'bad-op':
@@ -568,6 +629,8 @@ def assess(ops, impl, model, groups, out, report=True):
 def run(tier):
     out = C.Outcome('C19', tier)
     rng = C.Rng(C.seed()).fork('C19')
+    global BUDGET
+    BUDGET = Budget(240 if tier == 'quick' else 1800)       # replay budget (the Lean build is outside it)
     proof = C.prove('C19', extra_targets=['GoomVerif.Findings.C19F13', 'GoomVerif.Findings.C19F14'], leanchecker=(tier == 'thorough'))
     bodies, risky, sv = gen_streams(tier, rng)
     ops, impl, model, groups, derr = execute(bodies, risky, sv)
@@ -615,9 +678,10 @@ def run(tier):
                       if impl[g['debug']] and ' L=' in impl[g['debug']] and (int(impl[g['debug']].rsplit('L=', 1)[1]) > 0 or ' W=-' not in impl[g['debug']])})
     crashes = sum(1 for o in impl if o and o.startswith('CRASH'))
     # floors: a lane that silently ran nothing is a machinery error, not a pass
-    lanes = {'main': sum(1 for _, g, rk in groups if rk is False and impl[g['off']]), 'unopenable-log': sum(1 for _, g, rk in groups if rk == 'h' and impl[g['off']]),
-             'isolated': sum(1 for _, g, rk in groups if rk is True and impl[g['off']]), 'sprintv': sum(1 for i, o in enumerate(ops) if o.startswith('c19.sv') and impl[i])}
-    if min(lanes.values()) == 0 or wrapped_runs == 0 or logged == 0:
+    lanes = {'main': sum(1 for _, g, rk in groups if rk is False and impl[g['off']] not in (None, 'SKIPPED')), 'unopenable-log': sum(1 for _, g, rk in groups if rk == 'h' and impl[g['off']] not in (None, 'SKIPPED')),
+             'isolated': sum(1 for _, g, rk in groups if rk is True and impl[g['off']] not in (None, 'SKIPPED')), 'sprintv': sum(1 for i, o in enumerate(ops) if o.startswith('c19.sv') and impl[i])}
+    skipped = sum(1 for o in impl if o == 'SKIPPED')
+    if not skipped and (min(lanes.values()) == 0 or wrapped_runs == 0 or logged == 0):
         raise C.Infra(f'a lane produced nothing (lanes={lanes}, wrapper runs={wrapped_runs}, logged lines={logged}): the probe lost its configuration switch')
     out.coverage = {
         'obligations': proof['obligations'], 'discharged': proof['discharged'],
@@ -633,7 +697,8 @@ def run(tier):
                 'in separate processes; non-trivial = distinct (target, transcript) of scenarios in which a mock was reached with debug open (wrapper run or call logged)',
         'distribution': {'scenarios': len(groups), 'isolated_scenarios(cycles, logger-called target, Origin leaf targets, library functions)': sum(1 for _, _, rk in groups if rk is True), 'unopenable_log_file_scenarios': sum(1 for _, _, rk in groups if rk == 'h'), 'sprintv_vectors': len(sv),
                          'by_target': dist, 'by_op': opk, 'callback_runs_through_wrapper(debug cfg)': wrapped_runs, 'call_log_lines(debug cfg)': logged,
-                         'panic_outcomes(debug cfg)': panics, 'process_deaths': crashes, 'oracle_failures': len(bad),
+                         'panic_outcomes(debug cfg)': panics, 'process_deaths': crashes, 'reproduced_hangs': BUDGET.hangs,
+                         'evaluations_skipped_after_hangs_or_deadline': sum(1 for o in impl if o == 'SKIPPED'), 'oracle_failures': len(bad),
                          'oracle_failures_matching_known_finding': sum(1 for b in bad if b[2] is not None), 'model_disagreements': len(diffs),
                          'widened_search_evaluations': widened},
         'samples': [{'op': ops[i], 'impl': impl[i], 'model': model[i] if model else None} for i in (0, 1, len(ops) // 3, len(ops) // 2, len(ops) - 1)],
